@@ -177,9 +177,9 @@ type fake struct {
 	in  bytes.Buffer
 }
 
-func (f *fake) Start() (io.Writer, io.Reader, error)    { return &f.in, f.out, nil }
-func (f *fake) Stop() error                             { return nil }
-func (f *fake) GracefulStop(context.Context) error      { return nil }
+func (f *fake) Start() (io.Writer, io.Reader, error) { return &f.in, f.out, nil }
+func (f *fake) Stop() error                          { return nil }
+func (f *fake) GracefulStop(context.Context) error   { return nil }
 func newFake(lines []string) *fake {
 	var b strings.Builder
 	b.WriteString("M" + b64("plug") + "\n")
@@ -460,4 +460,130 @@ func parse(ls []string) (*cb.Node, int, error) {
 		return cb.Map(kids...), i, nil
 	}
 	return nil, 0, fmt.Errorf("unexpected line %q", l)
+}
+
+// ---- peer-supplied values (C10): whatever CBOR a peer puts into a service-info value, the adapter
+// of a plugin-backed module returns an error or hands the plugin lines that parse back to the value.
+
+// RandNode builds a random CBOR tree from a small seeded generator (depth-bounded).
+func RandNode(next func(int) int, depth int) *cb.Node {
+	k := next(14)
+	if depth <= 0 && k >= 8 {
+		k = next(8)
+	}
+	switch k {
+	case 0:
+		return cb.Uint(uint64(next(1000)))
+	case 1:
+		return cb.Uint(^uint64(0) - uint64(next(3))) // beyond int64
+	case 2:
+		return cb.Nint(uint64(next(1000)))
+	case 3:
+		return cb.Nint(^uint64(0) - uint64(next(3))) // below int64
+	case 4:
+		return cb.Bstr(bytes.Repeat([]byte{byte(next(256))}, next(40)))
+	case 5:
+		return cb.Tstr(strings.Repeat(string(rune('a'+next(26))), next(40)))
+	case 6:
+		return cb.Bool(next(2) == 0)
+	case 7:
+		switch next(4) {
+		case 0:
+			return cb.Null()
+		case 1:
+			return cb.Undefined()
+		case 2:
+			return &cb.Node{Major: 7, AI: 0xff, Val: uint64(next(20))} // simple value
+		default:
+			return &cb.Node{Major: 7, AI: 27, Val: 0x3ff8000000000000} // float64 1.5
+		}
+	case 8, 9:
+		var kids []*cb.Node
+		for i := next(5); i > 0; i-- {
+			kids = append(kids, RandNode(next, depth-1))
+		}
+		return cb.Arr(kids...)
+	case 10, 11:
+		var kv []*cb.Node
+		for i := next(4); i > 0; i-- {
+			kv = append(kv, RandNode(next, depth-1), RandNode(next, depth-1)) // any key type
+		}
+		return cb.Map(kv...)
+	default:
+		return cb.Tag(uint64(next(3000)), RandNode(next, depth-1))
+	}
+}
+
+// PeerResult is the outcome of one peer-supplied value.
+type PeerResult struct {
+	Role    string `json:"role"`
+	Value   string `json:"value"`
+	Outcome string `json:"outcome"` // error | delivered | altered | crash | hang
+	Detail  string `json:"detail,omitempty"`
+}
+
+// Peer hands an arbitrary CBOR item to Receive / HandleInfo.
+func Peer(role string, n *cb.Node) PeerResult {
+	r := PeerResult{Role: role, Value: hex.EncodeToString(n.Encode())}
+	f := newFake([]string{"Y"})
+	done := make(chan struct{})
+	var err error
+	go func() {
+		defer close(done)
+		defer func() {
+			if p := recover(); p != nil {
+				r.Outcome = "crash"
+				r.Detail = fmt.Sprintf("%v @ %s", p, world.TopLibFrame())
+			}
+		}()
+		ctx := context.Background()
+		switch role {
+		case "device":
+			m := &plugin.DeviceModule{Module: f}
+			err = m.Receive(ctx, "a", bytes.NewReader(n.Encode()), func(string) io.Writer { return io.Discard }, func() {})
+		case "owner":
+			m := &plugin.OwnerModule{Module: f}
+			if _, _, perr := m.ProduceInfo(ctx, serviceinfo.NewProducer("plug", 1300)); perr != nil {
+				err = perr
+				return
+			}
+			err = m.HandleInfo(ctx, "a", bytes.NewReader(n.Encode()))
+		}
+	}()
+	select {
+	case <-done:
+	case <-time.After(20 * time.Second):
+		r.Outcome = "hang"
+		return r
+	}
+	if r.Outcome == "crash" {
+		return r
+	}
+	if err != nil {
+		r.Outcome, r.Detail = "error", err.Error()
+		return r
+	}
+	var rest []string
+	seenK := false
+	for _, l := range strings.Split(strings.TrimSpace(f.in.String()), "\n") {
+		if l == "" {
+			continue
+		}
+		if seenK {
+			rest = append(rest, l)
+		} else if l == "K"+b64("a") {
+			seenK = true
+		}
+	}
+	back, used, perr := parse(rest)
+	switch {
+	case !seenK || perr != nil || used != len(rest):
+		r.Outcome, r.Detail = "altered", fmt.Sprintf("lines do not parse back (%v)", perr)
+	case canonHex(back) != canonHex(n):
+		// undefined is documented to decode as null
+		r.Outcome, r.Detail = "altered", "plugin received "+canonHex(back)
+	default:
+		r.Outcome = "delivered"
+	}
+	return r
 }
